@@ -1,6 +1,13 @@
 #!/bin/sh
-# builds the symbolic executor from /verif/engine (offline; x/tools v0.29.0 from the module cache)
+# Builds the symbolic executor from /verif/engine (offline; x/tools v0.29.0 from the module cache), then warms the
+# Go build cache for the packages the native replays compile (non-fatal; only saves time in the first check).
 cd "$(dirname "$0")" || exit 1
 export GOFLAGS=-mod=mod GOPROXY=off GOSUMDB=off GOTOOLCHAIN=local
 (cd engine && go build -o ../bin/gosym .) || exit 1
 echo "gosym built"
+REPO=${VERIF_REPO:-/repo}
+pkgs=$(sed -n 's/.*"pkg": *"github.com\/lavanet\/lava\/v5\/\([^"]*\)".*/.\/\1/p' checks/C*.json | sort -u | tr '\n' ' ')
+if [ -n "$pkgs" ] && [ -d "$REPO" ]; then
+  (cd "$REPO" && timeout 1500 go test -vet=off -count=1 -run '^$' $pkgs >/dev/null 2>&1) && echo "replay build cache warm" || echo "note: cache warm-up skipped/failed (checks still work, first replay is slower)"
+fi
+exit 0
